@@ -184,3 +184,8 @@ func init() {
 	mutant("block-position-per-call", "hdr-carryover", "serverConn.go", "b, err = sc.dec.nextField(hf, strm.blockFields == 0, strm.blockFields, b)", "b, err = sc.dec.nextField(hf, fr.Type() != FrameContinuation, strm.blockFields, b)")
 	mutant("block-position-never-reset", "hdr-carryover", "serverConn.go", "	if fr.Type() != FrameContinuation {\n		strm.blockFields = 0\n	}\n", "")
 }
+
+func init() {
+	mutant("string-cut-own-error", "dec-short-input-signal", "hpack.go", "		return b, dst, ErrUnexpectedSize\n	}\n\n	mustDecode", "		return b, dst, errors.New(\"no bytes left\")\n	}\n\n	mustDecode")
+	mutant("peek-nil-unchecked", "dec-short-input-signal", "hpack.go", "		hf2 := hp.peek(n)\n		if hf2 == nil {\n			return b, NewError(FlowControlError, fmt.Sprintf(\"index field not found: %d. table:\\n%s\", n,\n				headerFieldsToString(hp.dynamic, maxIndex)))\n		}\n\n		hf2.CopyTo(hf)", "		hf2 := hp.peek(n)\n\n		hf2.CopyTo(hf)")
+}
